@@ -5988,3 +5988,978 @@ def check(run):
     run.rule('R13', _safe(r13_all_parsed_params_match), '_MediaRange.parse() evaluated on every ordered subset of {a, q, b}: the range is built with the '
              "parsed parameters minus exactly 'q' - no position-dependent filtering", floor=1)
     run.rule('R14', _safe(r14_overrides_still_mutate), 'a method of Handlers that shadows a mutating method of the mapping protocol still performs the change on every path no argument test leaves', floor=3)
+    run.rule('R15', _safe(r15_one_case_form_both_sides), 'candidate text and range text reach their constructors in one case form: a case fold on one-sided '
+             'text of falcon.util.mediatypes (raw argument or a piece of the shared parser result) is applied to the same piece on the other side', floor=6)
+    run.rule('R16', _safe(r16_wildcard_sees_stripped_member), "_parse_media_type_header: the text compared with the lone wildcard '*' is stripped on every "
+             'path (element 0 of a parse_header() result, or its own strip())', floor=1)
+    run.rule('R17', _safe(r17_default_table_by_identity), 'Handlers.__init__ evaluated on initial in {None, empty mapping, non-empty mapping}: the default table only '
+             'for `initial is None` (never by truthiness); copy() / __copy__ hand the live data to that constructor', floor=4)
+    run.rule('R18', _safe(r18_cut_outside_quotes), 'header text is cut at , / ; only outside quoted strings: plain split/partition only under a dominating '
+             '`\'"\' not in text` test; the splitter\'s character loop is equivalent to the RFC 9110 quoted-string reader (finite-domain evaluation)', floor=2)
+
+
+# ---------------------------------------------------------------------------
+# R15 one case form on BOTH sides of the matcher (added after seeded change
+# s9-c11-1: _MediaType.parse() lower-cased the candidate text, _MediaRange.parse()
+# did not)
+# ---------------------------------------------------------------------------
+#
+# match_score() compares main type, subtype, parameter names and parameter
+# VALUES of a candidate (_MediaType) and of a range (_MediaRange) with `==`:
+# whatever case normalisation one side applies on the way from the raw text to
+# its constructor, the other side has to apply too.  The texts of the module
+# are sorted into the two sides by def-use from the two parse entry points
+# (a parameter whose text flows into _MediaType.parse is candidate text, into
+# _MediaRange.parse range text; a helper that receives both - the shared header
+# parser - is symmetric by construction and not looked at).  Every case fold
+# on one-sided text is put down as (piece, fold): a fold of the raw text
+# counts for all four pieces (it folds the parameter values too); a fold of a
+# piece unpacked from the shared parser's result counts for that piece.  The
+# two profiles must be equal.  Folds the shared parser itself applies to a
+# piece (parameter names are lower-cased by parse_header) are idempotent on
+# either side and are not counted.
+
+_R15_PIECES = ('type', 'subtype', 'param-name', 'param-value')
+_R15_WITNESS = "quality('application/vnd.Acme.v2+json', 'application/vnd.Acme.v2+json') is 0.0 instead of 1.0; " \
+               "'text/plain; format=Flowed' no longer matches the range 'text/plain; format=Flowed'; Handlers keyed by a vendor type answer 415"
+_SHARED_PARSER = MEDIATYPES + '._parse_media_type_header'        # returns (main type, subtype, params)
+
+
+def _mt_functions(p):
+    """functions of falcon.util.mediatypes and the lru_cache aliases of the module (alias qualname -> wrapped function)"""
+    mod = p.module(MEDIATYPES)
+    funcs = [f for f in p.all_functions(MEDIATYPES + '.')]
+    alias_of: Dict[str, str] = {}
+    for name, val in mod.consts.items():
+        if isinstance(val, ast.Call) and p.resolve_expr(mod, val.func, None) in ('functools.lru_cache', 'functools.cache') and val.args:
+            t = p.resolve_callable(_ModFunc(mod), val.args[0])
+            if isinstance(t, Func):
+                alias_of[mod.name + '.' + name] = t.qual
+    by_qual = {f.qual: f for f in funcs}
+
+    def callee(f, call) -> Optional[Func]:
+        t = p.resolve_callable(f, call.func)
+        if isinstance(t, Func):
+            return by_qual.get(t.qual)
+        q = t if isinstance(t, str) else p.resolve_expr(f.module, call.func, f)
+        return by_qual.get(alias_of.get(q)) if q else None
+
+    return funcs, callee
+
+
+def _arg_binding(g: Func, call: ast.Call) -> List[Tuple[str, ast.AST]]:
+    """(parameter name of g, argument expression) pairs of one call"""
+    names = _param_names(g)
+    out = []
+    for i, a in enumerate(call.args):
+        if isinstance(a, ast.Starred):
+            break
+        if i < len(names):
+            out.append((names[i], a))
+    for k in call.keywords:
+        if k.arg in names:
+            out.append((k.arg, k.value))
+    return out
+
+
+class _TextOf:
+    """locals of one function that hold text derived from the parameter `a` - also through a call of a function of the
+    module on such text (what a splitting / parsing helper returns for the text is pieces of the text)"""
+
+    def __init__(self, f: Func, a: str, callee):
+        self.f = f
+        self.names = {a}
+
+        def base(e):
+            return isinstance(e, ast.Call) and callee(f, e) is not None and any(
+                _text_derived(x, self.names, base) for x in list(e.args) + [k.value for k in e.keywords])
+        self.base = base
+        binds = list(_bindings_from(f.node))
+        changed = True
+        while changed:
+            changed = False
+            for tgts, v in binds:
+                if not tgts <= self.names and _text_derived(v, self.names, base):
+                    self.names |= tgts
+                    changed = True
+
+    def derived(self, e) -> bool:
+        return _text_derived(e, self.names, self.base)
+
+
+def _fold_sites(fnode, derived):
+    """(call node, fold name) for every case fold applied to text that `derived` recognises"""
+    for n in ast.walk(fnode):
+        if not isinstance(n, ast.Call):
+            continue
+        fn = n.func
+        if isinstance(fn, ast.Attribute) and fn.attr in CASE_FOLDS:
+            if isinstance(fn.value, ast.Name) and fn.value.id == 'str':
+                if n.args and derived(n.args[0]):
+                    yield n, fn.attr
+            elif derived(fn.value):
+                yield n, fn.attr
+        elif isinstance(fn, ast.Name) and fn.id == 'map' and len(n.args) >= 2 and isinstance(n.args[0], ast.Attribute) \
+                and n.args[0].attr in CASE_FOLDS and isinstance(n.args[0].value, ast.Name) and n.args[0].value.id == 'str' \
+                and any(derived(a) for a in n.args[1:]):
+            yield n, n.args[0].attr
+
+
+def _shared_parser_folds(p) -> Set[Tuple[str, str]]:
+    """(piece, fold) pairs the shared header parser applies itself: every store into the parameter dict of parse_header / its
+    stdlib twin has a lower-cased key -> ('param-name', 'lower')"""
+    stores = []
+    for q in (MEDIATYPES + '.parse_header', MEDIATYPES + '._parse_header_old_stdlib'):
+        f = p.funcs.get(q)
+        if f is None:
+            return set()
+        for n in walk_self(f.node):
+            if isinstance(n, ast.Assign) and len(n.targets) == 1 and isinstance(n.targets[0], ast.Subscript) and isinstance(n.targets[0].value, ast.Name):
+                k = n.targets[0].slice
+                srcs = [k]
+                if isinstance(k, ast.Name):
+                    srcs = [v for _s, v in _assignments(f.node, k.id) if v is not None] or [k]
+                stores.append(all(any(isinstance(x, ast.Call) and isinstance(x.func, ast.Attribute) and x.func.attr == 'lower' for x in ast.walk(s))
+                                  for s in srcs))
+    return {('param-name', 'lower')} if stores and all(stores) else set()
+
+
+def r15_one_case_form_both_sides(run):
+    """Candidate text and range text reach their constructors in ONE case form: every case fold applied to one-sided text in
+    falcon.util.mediatypes (the raw argument of _MediaType.parse / _MediaRange.parse, of quality() / best_match() /
+    _parse_media_ranges(), or a piece unpacked from the shared parser's result) is applied to the same piece on the other side.
+    W: quality('application/vnd.Acme.v2+json', 'application/vnd.Acme.v2+json') is 0.0 when only the candidate is lower-cased."""
+    p = run.project
+    funcs, callee = _mt_functions(p)
+    seeds = {(MEDIATYPES + '._MediaType.parse', 'candidate'), (MEDIATYPES + '._MediaRange.parse', 'range')}
+    lab: Dict[Tuple[str, str], Set[str]] = {}
+    by_qual = {f.qual: f for f in funcs}
+    for q, side in seeds:
+        f = p.func(q)
+        names = _param_names(f)
+        if len(names) != 1:
+            raise UnknownIdiom('%s takes %s' % (q, names))
+        lab[(q, names[0])] = {side}
+    if _SHARED_PARSER not in by_qual:
+        raise AnchorError('%s not found' % _SHARED_PARSER)
+    texts: Dict[Tuple[str, str], _TextOf] = {}
+
+    def text_of(f, a) -> _TextOf:
+        if (f.qual, a) not in texts:
+            texts[(f.qual, a)] = _TextOf(f, a, callee)
+        return texts[(f.qual, a)]
+
+    flows = []            # ((f, a), (g, b)): text of parameter a of f is handed to parameter b of g
+    for f in funcs:
+        if f.parent is not None:
+            continue
+        for a in _param_names(f):
+            T = text_of(f, a)
+            for c in ast.walk(f.node):
+                if isinstance(c, ast.Call):
+                    g = callee(f, c)
+                    if g is None:
+                        continue
+                    for b, arg in _arg_binding(g, c):
+                        if T.derived(arg):
+                            flows.append(((f.qual, a), (g.qual, b), c))
+    # callers first (text that flows INTO a side is text of that side), then callees (a helper receives the side of its callers)
+    changed = True
+    while changed:
+        changed = False
+        for src, dst, _c in flows:
+            if dst in lab and not lab[dst] <= lab.setdefault(src, set()):
+                lab[src] |= lab[dst]
+                changed = True
+    back = {k: set(v) for k, v in lab.items() if v}
+    changed = True
+    while changed:
+        changed = False
+        for src, dst, _c in flows:
+            if lab.get(src) and not lab[src] <= lab.setdefault(dst, set()):
+                lab[dst] |= lab[src]
+                changed = True
+    one_sided = sorted((k, next(iter(v))) for k, v in lab.items() if len(v) == 1)
+    if not any(lab.get((_SHARED_PARSER, a)) == {'candidate', 'range'} for a in _param_names(by_qual[_SHARED_PARSER])):
+        raise UnknownIdiom('the two parse entry points no longer hand their text to the shared parser %s' % _SHARED_PARSER)
+    if len({s for _k, s in one_sided}) != 2:
+        raise AnchorError('candidate-side and range-side texts not both found')
+
+    baseline = _shared_parser_folds(p)
+    profile: Dict[str, Set[Tuple[str, str]]] = {'candidate': set(), 'range': set()}
+    sites: Dict[Tuple[str, str], list] = {}
+    for (fq, a), side in one_sided:
+        f = by_qual[fq]
+        T = text_of(f, a)
+        # pieces unpacked from the shared parser's result
+        piece_text: List[Tuple[str, _TextOf]] = []
+        for n in walk_self(f.node):
+            if isinstance(n, ast.Assign) and len(n.targets) == 1 and isinstance(n.targets[0], (ast.Tuple, ast.List)) \
+                    and isinstance(n.value, ast.Call) and callee(f, n.value) is by_qual[_SHARED_PARSER]:
+                elts = n.targets[0].elts
+                if len(elts) != 3 or not all(isinstance(x, ast.Name) for x in elts):
+                    raise UnknownIdiom('%s: unpacking of the shared parser result: %s' % (fq, short(n, 80)))
+                for x, piece in zip(elts, ('type', 'subtype', 'params')):
+                    piece_text.append((piece, _TextOf(f, x.id, callee)))
+        parent = enclosing_map(f.node)
+        out = []
+        for n, fold in _fold_sites(f.node, T.derived):
+            recv = n.args[0] if (isinstance(n.func, ast.Attribute) and isinstance(n.func.value, ast.Name) and n.func.value.id == 'str' and n.args) \
+                else (n.func.value if isinstance(n.func, ast.Attribute) else n.args[1])
+            pieces = None
+            for piece, PT in piece_text:
+                if a not in PT.names and PT.derived(recv) and not _text_derived(recv, {a}):
+                    pieces = [piece]
+            if pieces is None:
+                pieces = list(_R15_PIECES)
+            elif pieces == ['params']:
+                pieces = ['param-name', 'param-value']
+                cur, child = parent.get(id(n)), n
+                while cur is not None:
+                    if isinstance(cur, ast.DictComp):
+                        inside_key = any(x is child or x is n for x in ast.walk(cur.key))
+                        inside_val = any(x is child or x is n for x in ast.walk(cur.value))
+                        if inside_key != inside_val:
+                            pieces = ['param-name'] if inside_key else ['param-value']
+                        break
+                    child, cur = cur, parent.get(id(cur))
+            ent = {(pc, fold) for pc in pieces} - baseline
+            profile[side] |= ent
+            out.append((n, fold, ent))
+        sites[(fq, a)] = out
+    n_ob = 0
+    for (fq, a), side in one_sided:
+        f = by_qual[fq]
+        other = 'range' if side == 'candidate' else 'candidate'
+        what = '%s: no case fold on the %s text `%s` that the %s side does not apply to the same piece (folds: %s side %s; %s side %s)' % (
+            f.name, side, a, other, side, sorted(profile[side]) or 'none', other, sorted(profile[other]) or 'none')
+        bad = [(n, fold, ent - profile[other]) for n, fold, ent in sites[(fq, a)] if ent - profile[other]]
+        n_ob += 1
+        if not bad:
+            run.ok(what, f.loc(), '%s(%s)' % (f.name, a))
+            continue
+        for n, fold, miss in bad:
+            run.fail(what, f, n, where=f.loc(n),
+                     witness=['%s() folds %s of the %s text only' % (fold, '/'.join(sorted({pc for pc, _f in miss})), side)],
+                     runtime_witness=_R15_WITNESS)
+    run.extra['c11_r15'] = {'one_sided_texts': ['%s(%s): %s' % (k[0].rsplit('.', 1)[-1], k[1], s) for k, s in one_sided],
+                            'shared_parser_folds': sorted(baseline)}
+    return n_ob
+
+
+# ---------------------------------------------------------------------------
+# R16 the lone-wildcard test sees the STRIPPED member (added after seeded
+# change s9-c11-2: a fast path of _parse_media_type_header() skipped
+# parse_header() - which is also what strips the value - for members without
+# parameters)
+# ---------------------------------------------------------------------------
+#
+# The members of an Accept header are what stands between the commas: every
+# member but the first normally starts with a blank.  _parse_media_type_header()
+# reads a member that is a lone `*` as `*/*`; that `== '*'` test is exact, so
+# the text it sees must have lost its outer blanks on EVERY path: it is element
+# 0 of a parse_header() result (whose returns are shown to be stripped: the
+# `.strip()` on each return / on each yield of the parameter splitter), or has a
+# `.strip()` of its own in its provenance.  Reaching definitions, not names.
+
+_R16_WITNESS = "Accept: 'text/html, image/gif, *' -> quality()/best_match() raise InvalidMediaRange (client_prefers() is None, client_accepts() " \
+               "False, Handlers answer 415); 'text/html;q=0.3, *' likewise - only a member written '*' right after the comma, or '*;q=..', still works"
+
+
+class _Stripped:
+    """is the value of an expression text without outer blanks?  True / False; unknown shapes raise UnknownIdiom"""
+
+    def __init__(self, p, callee):
+        self.p, self.callee = p, callee
+        self.rd: Dict[str, object] = {}
+        self.memo: Dict[Tuple[str, int], bool] = {}
+
+    def _rd(self, f: Func):
+        from .c09_helpers import ReachingDefs
+        if f.qual not in self.rd:
+            cfg = cfg_of(f, self.p)
+            self.rd[f.qual] = (cfg, ReachingDefs(cfg))
+        return self.rd[f.qual]
+
+    def _nid(self, f: Func, node):
+        cfg, _rd = self._rd(f)
+        for n in cfg.live_nodes():
+            if n.copy:
+                continue
+            if any(x is node for x in n.walk()):
+                return n.id
+        raise UnknownIdiom('%s: no CFG node for %s' % (f.qual, short(node, 60)))
+
+    def expr(self, f: Func, e, at, index=None, depth=0) -> bool:
+        """`e` (element `index` of it when given) evaluated at CFG node `at` of f"""
+        if depth > 12:
+            raise UnknownIdiom('%s: provenance of %s too deep' % (f.qual, short(e, 60)))
+        e = _unwrap_cast(e)
+        if index is not None:
+            if isinstance(e, (ast.Tuple, ast.List)):
+                if index >= len(e.elts) or any(isinstance(x, ast.Starred) for x in e.elts):
+                    raise UnknownIdiom('%s: element %d of %s' % (f.qual, index, short(e, 60)))
+                return self.expr(f, e.elts[index], at, None, depth + 1)
+            if isinstance(e, ast.Call):
+                g = self.callee(f, e)
+                if g is not None:
+                    return self.returns(g, index, depth + 1)
+                if isinstance(e.func, ast.Attribute) and e.func.attr in ('partition', 'rpartition', 'split', 'rsplit'):
+                    return False                          # a piece of a cut text keeps the blanks next to the separator
+                raise UnknownIdiom('%s: element %d of %s' % (f.qual, index, short(e, 60)))
+            if isinstance(e, ast.Name):
+                return self.name(f, e.id, at, index, depth + 1)
+            raise UnknownIdiom('%s: element %d of %s' % (f.qual, index, short(e, 60)))
+        if isinstance(e, ast.Constant) and isinstance(e.value, str):
+            return e.value == e.value.strip()
+        if isinstance(e, ast.Call) and isinstance(e.func, ast.Attribute):
+            if e.func.attr == 'strip' and not e.args and not e.keywords:
+                return True
+            if e.func.attr in CASE_FOLDS and not e.args:
+                return self.expr(f, e.func.value, at, None, depth + 1)
+            if e.func.attr == '__next__' and not e.args and isinstance(e.func.value, ast.Name):
+                return self.generator(f, e.func.value.id, at, depth + 1)
+            if e.func.attr in ('strip', 'lstrip', 'rstrip'):
+                return False if e.func.attr != 'strip' else self._strip_arg(f, e)
+            return False                                  # a slice / replace / join ... of text: no longer known to be stripped
+        if isinstance(e, ast.Call) and isinstance(e.func, ast.Name) and e.func.id == 'next' and e.args and isinstance(e.args[0], ast.Name):
+            return self.generator(f, e.args[0].id, at, depth + 1)
+        if isinstance(e, ast.Call):
+            g = self.callee(f, e)
+            if g is not None:
+                return self.returns(g, None, depth + 1)
+            return False
+        if isinstance(e, ast.Name):
+            return self.name(f, e.id, at, None, depth + 1)
+        if isinstance(e, ast.IfExp):
+            return self.expr(f, e.body, at, None, depth + 1) and self.expr(f, e.orelse, at, None, depth + 1)
+        if isinstance(e, ast.BoolOp):
+            return all(self.expr(f, v, at, None, depth + 1) for v in e.values)
+        return False
+
+    def _strip_arg(self, f, e) -> bool:
+        a = e.args[0] if e.args else None
+        if isinstance(a, ast.Constant) and (a.value is None or (isinstance(a.value, str) and ' ' in a.value and '\t' in a.value)):
+            return True
+        raise UnknownIdiom('%s: %s' % (f.qual, short(e, 60)))
+
+    def name(self, f: Func, name: str, at, index, depth) -> bool:
+        _cfg, rd = self._rd(f)
+        defs = rd.at(at, name)
+        if not defs:
+            raise UnknownIdiom('%s: no definition of %s reaches %s' % (f.qual, name, at))
+        ok = True
+        for d in defs:
+            if d.how == 'param':
+                ok = False
+            elif d.how == 'assign' and d.value is not None:
+                ok = self.expr(f, d.value, self._nid(f, d.stmt), index, depth) and ok
+            elif d.how == 'unpack' and d.src is not None and index is None:
+                ok = self.expr(f, d.src, self._nid(f, d.stmt), d.index, depth) and ok
+            else:
+                raise UnknownIdiom('%s: %s bound by %s' % (f.qual, name, short(d.stmt, 60)))
+        return ok
+
+    def returns(self, g: Func, index, depth) -> bool:
+        key = (g.qual, -1 if index is None else index)
+        if key in self.memo:
+            return self.memo[key]
+        self.memo[key] = True             # a recursive helper: assume, then confirm
+        rets = [r for r in _returns(g) if r.value is not None]
+        if not rets:
+            raise UnknownIdiom('%s returns nothing' % g.qual)
+        ok = all(self.expr(g, r.value, self._nid(g, r), index, depth) for r in rets)
+        self.memo[key] = ok
+        return ok
+
+    def generator(self, f: Func, name: str, at, depth) -> bool:
+        """next() of a local bound to a call of a generator function of the module: every yield is stripped"""
+        _cfg, rd = self._rd(f)
+        ok = True
+        for d in rd.at(at, name):
+            g = self.callee(f, d.value) if d.how == 'assign' and isinstance(d.value, ast.Call) else None
+            if g is None:
+                raise UnknownIdiom('%s: %s is not bound to a generator of the module' % (f.qual, name))
+            ys = [n for n in walk_self(g.node) if isinstance(n, ast.Yield)]
+            if not ys or any(y.value is None for y in ys) or any(isinstance(n, ast.YieldFrom) for n in walk_self(g.node)):
+                raise UnknownIdiom('%s: yields of %s' % (f.qual, g.qual))
+            ok = all(self.expr(g, y.value, self._nid(g, y), None, depth) for y in ys) and ok
+        return ok
+
+
+def r16_wildcard_sees_stripped_member(run):
+    """The text compared with the lone wildcard '*' in _parse_media_type_header() is stripped on every path: element 0 of a
+    parse_header() result (every return of parse_header is shown stripped) or a value with its own .strip().
+    W: Accept 'text/html, *' -> the member ' *' is not read as */* -> InvalidMediaRange."""
+    p = run.project
+    funcs, callee = _mt_functions(p)
+    f = p.func(_SHARED_PARSER)
+    cfg = cfg_of(f, p)
+    run.use_cfg(cfg)
+    tests = []
+    for n in walk_self(f.node):
+        if isinstance(n, ast.Compare) and len(n.ops) == 1 and isinstance(n.ops[0], (ast.Eq, ast.NotEq, ast.In, ast.NotIn)):
+            a, b = n.left, n.comparators[0]
+            for x, y in ((a, b), (b, a)):
+                consts = [y] if isinstance(y, ast.Constant) else list(y.elts) if isinstance(y, (ast.Tuple, ast.List, ast.Set)) else []
+                if consts and any(isinstance(c, ast.Constant) and c.value == '*' for c in consts):
+                    tests.append((n, x))
+    if not tests:
+        raise AnchorError("%s: the lone-wildcard test (== '*') not found" % f.qual)
+    S = _Stripped(p, callee)
+    n_ob = 0
+    for cmp_node, operand in tests:
+        at = S._nid(f, cmp_node)
+        ok = S.expr(f, operand, at)
+        n_ob += 1
+        run.check(ok, "the text compared with the lone wildcard '*' has lost its outer blanks on every path (element 0 of a parse_header() result, "
+                  'or stripped by itself)', f, cmp_node, where=f.loc(cmp_node),
+                  witness=None if ok else ['some definition of %s reaching the test is the raw header member (blanks after the comma kept)' % short(operand, 40)],
+                  runtime_witness=_R16_WITNESS)
+    return n_ob
+
+
+# ---------------------------------------------------------------------------
+# R17 the constructor falls back to the default table only for `initial is None`
+# (added after the fix of Handlers.copy() on an emptied mapping)
+# ---------------------------------------------------------------------------
+#
+# copy() / __copy__ hand the LIVE data of the instance to the constructor
+# (R3 (c): the copy needs its own resolver).  "The copy contains the same keys
+# and values" therefore needs the constructor to keep ANY mapping it is given -
+# an empty one too: the default table is chosen by the identity of `initial`
+# with None, never by its truthiness.  Decided by evaluating the constructor on
+# the three cells of `initial` {None, empty mapping, non-empty mapping}: the
+# mapping handed on to the base constructor / update() / self.data must be
+# `initial` itself in the two mapping cells and something else (the defaults) in
+# the None cell.
+
+_R17_CELLS = ('None', 'empty mapping', 'non-empty mapping')
+_R17_WITNESS = 'h = Handlers(); h.clear(); c = h.copy(); c._resolve(MEDIA_JSON, ...) returns the JSON handler instead of a 415: ' \
+               'the copy of an emptied mapping has the three default handlers again'
+
+
+class _R17Unreadable(Exception):
+    pass
+
+
+def _r17_eval(e, env, cell: str, var: str, decisions: list):
+    """-> 'initial' | 'other' | True | False (tests) for the expression in the given cell of `initial`"""
+    e = _unwrap_cast(e)
+
+    def truth(v, node):
+        if v == 'initial':
+            if cell != 'None':
+                decisions.append(node)              # the truthiness of the mapping decides something
+            return cell == 'non-empty mapping'
+        if v == 'other':
+            return True                             # a dict display with items / a constructed object
+        if isinstance(v, bool):
+            return v
+        raise _R17Unreadable(short(node, 60))
+
+    if isinstance(e, ast.Name):
+        if e.id == var and var not in env:
+            return 'initial'
+        if e.id in env:
+            return env[e.id]
+        raise _R17Unreadable(e.id)
+    if isinstance(e, ast.Constant):
+        if e.value is None:
+            return 'none'
+        return bool(e.value)
+    if isinstance(e, (ast.Dict, ast.DictComp, ast.Call)):
+        if isinstance(e, ast.Call) and isinstance(e.func, ast.Name) and e.func.id in ('dict', 'OrderedDict') and len(e.args) == 1 and not e.keywords:
+            v = _r17_eval(e.args[0], env, cell, var, decisions)
+            return v if v in ('initial', 'other') else 'other'
+        if any(isinstance(x, ast.Name) and x.id == var and var not in env for x in ast.walk(e)):
+            raise _R17Unreadable(short(e, 60))
+        return 'other'
+    if isinstance(e, ast.UnaryOp) and isinstance(e.op, ast.Not):
+        return not truth(_r17_eval(e.operand, env, cell, var, decisions), e)
+    if isinstance(e, ast.Compare) and len(e.ops) == 1 and isinstance(e.ops[0], (ast.Is, ast.IsNot, ast.Eq, ast.NotEq)):
+        l, r = _r17_eval(e.left, env, cell, var, decisions), _r17_eval(e.comparators[0], env, cell, var, decisions)
+        if {l, r} <= {'initial', 'none'} and 'none' in (l, r):
+            is_none = (cell == 'None') if 'initial' in (l, r) else True
+            return is_none if isinstance(e.ops[0], (ast.Is, ast.Eq)) else (not is_none)
+        raise _R17Unreadable(short(e, 60))
+    if isinstance(e, ast.BoolOp):
+        last = None
+        for v in e.values:
+            last = _r17_eval(v, env, cell, var, decisions)
+            if last == 'none':
+                t = False
+            else:
+                t = truth(last, e)
+            if isinstance(e.op, ast.Or) and t:
+                return last
+            if isinstance(e.op, ast.And) and not t:
+                return last
+        return last
+    if isinstance(e, ast.IfExp):
+        t = _r17_eval(e.test, env, cell, var, decisions)
+        t = False if t == 'none' else truth(t, e.test)
+        return _r17_eval(e.body if t else e.orelse, env, cell, var, decisions)
+    raise _R17Unreadable(short(e, 60))
+
+
+def r17_default_table_by_identity(run):
+    """Handlers.__init__ keeps every mapping it is given (an empty one too) and installs the default table only when `initial`
+    IS None; copy() routes the live data through that constructor.
+    W: Handlers().clear() then copy(): the copy resolves MEDIA_JSON again."""
+    p = run.project
+    hc = p.cls(HANDLERS)
+    init = p.func(HANDLERS + '.__init__')
+    params = _param_names(init)
+    if len(params) != 1:
+        raise UnknownIdiom('%s takes %s' % (init.qual, params))
+    var = params[0]
+    a = init.node.args
+    dflt = (a.defaults or [None])[-1]
+    if not (isinstance(dflt, ast.Constant) and dflt.value is None):
+        raise UnknownIdiom('%s: the default of %s is not None' % (init.qual, var))
+    cfg = cfg_of(init, p)
+    run.use_cfg(cfg)
+
+    def sink_arg(stmt):
+        """the mapping expression this statement installs, or None"""
+        if isinstance(stmt, ast.Expr) and isinstance(stmt.value, ast.Call):
+            c = stmt.value
+            fn = c.func
+            if isinstance(fn, ast.Attribute) and fn.attr == '__init__':
+                base_is_super = isinstance(fn.value, ast.Call) and isinstance(fn.value.func, ast.Name) and fn.value.func.id == 'super'
+                args = list(c.args)
+                if not base_is_super:
+                    if not (args and isinstance(args[0], ast.Name) and args[0].id == 'self'):
+                        return None
+                    args = args[1:]
+                if len(args) == 1 and not isinstance(args[0], ast.Starred) and not c.keywords:
+                    return args[0]
+                if not args and not c.keywords:
+                    return None
+                raise UnknownIdiom('%s: %s' % (init.qual, short(c, 80)))
+            if isinstance(fn, ast.Attribute) and fn.attr == 'update' and (is_self_attr(fn.value, DATA) or (isinstance(fn.value, ast.Name) and fn.value.id == 'self')):
+                if len(c.args) == 1 and not c.keywords:
+                    return c.args[0]
+                raise UnknownIdiom('%s: %s' % (init.qual, short(c, 80)))
+        if isinstance(stmt, (ast.Assign, ast.AnnAssign)) and getattr(stmt, 'value', None) is not None:
+            tgs = stmt.targets if isinstance(stmt, ast.Assign) else [stmt.target]
+            if any(is_self_attr(t, DATA) for t in tgs):
+                return stmt.value
+        return None
+
+    n_ob = 0
+    for cell in _R17_CELLS:
+        results = []            # (sink stmt, value, decisions)
+        stack = [(cfg.entry, {}, (), frozenset())]
+        steps = 0
+        while stack:
+            nid, env, dec, onpath = stack.pop()
+            steps += 1
+            if steps > 3000 or nid in onpath:
+                raise UnknownIdiom('%s: loop / too many paths' % init.qual)
+            n = cfg.node(nid)
+            decisions = list(dec)
+            branch = None
+            try:
+                if n.kind == 'stmt':
+                    sa = sink_arg(n.ast)
+                    if sa is not None:
+                        v = _r17_eval(sa, env, cell, var, decisions)
+                        if v not in ('initial', 'other'):
+                            raise _R17Unreadable(short(sa, 60))
+                        results.append((n.ast, v, decisions))
+                    elif isinstance(n.ast, (ast.Assign, ast.AnnAssign)) and getattr(n.ast, 'value', None) is not None:
+                        tgs = n.ast.targets if isinstance(n.ast, ast.Assign) else [n.ast.target]
+                        if all(isinstance(t, ast.Name) for t in tgs):
+                            reads_var = any(isinstance(x, ast.Name) and x.id == var for x in ast.walk(n.ast.value)) or \
+                                any(isinstance(x, ast.Name) and x.id in env for x in ast.walk(n.ast.value))
+                            env = dict(env)
+                            if reads_var:
+                                v = _r17_eval(n.ast.value, env, cell, var, decisions)
+                            else:
+                                v = None
+                            for t in tgs:
+                                if v is None:
+                                    if t.id == var:
+                                        env[t.id] = 'other'
+                                    elif isinstance(n.ast.value, (ast.Dict, ast.DictComp)) or isinstance(n.ast.value, ast.Call):
+                                        env[t.id] = 'other'
+                                    else:
+                                        env.pop(t.id, None)
+                                else:
+                                    env[t.id] = v
+                elif n.kind == 'test':
+                    if any(isinstance(x, ast.Name) and (x.id == var or x.id in env) for x in walk_self(n.ast)):
+                        t = _r17_eval(n.ast, env, cell, var, decisions)
+                        if t == 'none':
+                            branch = False
+                        elif t in ('initial', 'other'):
+                            if t == 'initial' and cell != 'None':
+                                decisions.append(n.ast)
+                            branch = (cell == 'non-empty mapping') if t == 'initial' else True
+                        else:
+                            branch = bool(t)
+                elif n.kind in ('iter', 'with', 'handler'):
+                    raise UnknownIdiom('%s: %s in the constructor' % (init.qual, n.text()))
+            except _R17Unreadable as why:
+                raise UnknownIdiom('%s: %s (cell initial = %s)' % (init.qual, why, cell))
+            for (j, lab) in cfg.succ.get(nid, []):
+                if lab == 'exc':
+                    continue
+                if branch is not None and lab in ('T', 'F') and (lab == 'T') != branch:
+                    continue
+                stack.append((j, env, tuple(decisions), onpath | {nid}))
+        if not results:
+            raise AnchorError('%s hands no mapping to the base constructor / update() / self.data (cell initial = %s)' % (init.qual, cell))
+        want = 'other' if cell == 'None' else 'initial'
+        n_ob += 1
+        bad = [(s, v, d) for s, v, d in results if v != want]
+        if cell == 'None':
+            what = 'Handlers(None) / Handlers(): the default table is installed'
+        else:
+            what = 'Handlers(<%s>): the mapping given is the mapping kept - the default table is chosen by `%s is None`, never by the ' \
+                   'truthiness of the mapping (copy() hands the live data to this constructor)' % (cell, var)
+        if not bad:
+            run.ok(what, init.loc(results[0][0]), 'initial = %s' % cell)
+            continue
+        s, v, d = bad[0]
+        cons = d[0] if d else s
+        run.fail(what, init, cons, where=init.loc(cons),
+                 witness=['initial = %s: the constructor installs %s' % (cell, 'the given mapping' if v == 'initial' else 'another mapping (the defaults)')],
+                 runtime_witness=_R17_WITNESS)
+
+    # the link: copy() (and __copy__) construct from the live data
+    cp = hc.methods.get('copy')
+    if cp is None:
+        raise AnchorError('%s.copy not found' % HANDLERS)
+    run.use(cp)
+    for r in _returns(cp):
+        v = r.value
+        if isinstance(v, ast.Name):
+            binds = _assignments(cp.node, v.id)
+            if len(binds) != 1 or binds[0][1] is None:
+                raise UnknownIdiom('%s: returned local %s' % (cp.qual, v.id))
+            v = binds[0][1]
+        if _constructor_call(p, cp, v) is not True:
+            raise UnknownIdiom('%s returns %s, not a constructor call (R3 (c) judges it)' % (cp.qual, short(r.value, 60)))
+        args = list(v.args) + [k.value for k in v.keywords]
+        n_ob += 1
+        run.check(len(args) == 1 and _mentions_mapping(args[0]), 'copy() hands the live mapping (self.data / self) to the constructor: same keys and values',
+                  cp, r, where=cp.loc(r), runtime_witness='h.copy() of a customised mapping comes back with the default handlers (nothing handed on)')
+    cc = hc.attrs.get('__copy__')
+    if cc is not None:
+        if not (isinstance(cc, ast.Name) and cc.id == 'copy'):
+            raise UnknownIdiom('%s.__copy__ = %s' % (HANDLERS, short(cc, 60)))
+        n_ob += 1
+        run.ok('__copy__ is copy(): copy.copy(handlers) takes the same route through the constructor', cp.loc(), '__copy__ = copy')
+    return n_ob
+
+
+# ---------------------------------------------------------------------------
+# R18 header text is cut at `,` / `;` only outside quoted strings (added after
+# the fix of _parse_media_ranges(): `header.split(',')` cut the quoted parameter
+# value of `text/plain;format="a,b"` / `multipart/form-data; boundary="a,b"`)
+# ---------------------------------------------------------------------------
+#
+# (a) sweep of falcon.util.mediatypes: a plain str cut (split / rsplit /
+#     partition / rpartition) at one of the structural separators of the header
+#     grammar (`,` between members, `;` between parameters) is accepted only
+#     where a dominating test proves that the text it is applied to - or the
+#     text that text was cut from - contains no DQUOTE (`'"' not in text`).
+# (b) the member list of _parse_media_ranges() comes from a splitter of the
+#     module; its character loop is evaluated over the finite domain
+#     char in {DQUOTE, backslash, comma, other} x the boolean state variables of
+#     the loop, and compared - as a transducer emitting "cut here" - with the
+#     RFC 9110 5.6.4 quoted-string reader: cut at a comma only outside quotes; a
+#     DQUOTE toggles the quote state unless escaped; a backslash escapes the next
+#     character only inside quotes.  Equivalence over ALL character sequences is
+#     decided on the reachable product states.  Not decided: the slice arithmetic
+#     (start / pos) of the pieces handed out.
+
+_R18_SEPARATORS = (',', ';')
+_R18_CUTS = ('split', 'rsplit', 'partition', 'rpartition')
+_R18_WITNESS_A = "quality('text/plain; format=\"a,b\"', 'text/plain; format=\"a,b\"') is 0.0 / best_match raises; Content-Type " \
+                 "'multipart/form-data; boundary=\"a,b\"' resolved through Handlers answers 415"
+_R18_CHARS = (('DQUOTE', '"'), ('backslash', '\\'), ('comma', ','), ('other', 'x'))
+
+
+def _r18_ref_step(state, ch):
+    q, esc = state
+    if esc:
+        return (q, False), False
+    if q and ch == '\\':
+        return (q, True), False
+    if ch == '"':
+        return (not q, False), False
+    if ch == ',' and not q:
+        return (q, False), True
+    return (q, False), False
+
+
+class _R18Unreadable(Exception):
+    pass
+
+
+class _R18Stop(Exception):
+    pass
+
+
+def _r18_code_step(body, state: Dict[str, bool], charvar: str, ch: str):
+    """run the loop body once: -> (new state, cut?, tests of the arms taken)"""
+    st = dict(state)
+    out = {'cut': False, 'arms': []}
+
+    def ev(e):
+        if isinstance(e, ast.Constant) and isinstance(e.value, (bool, str)):
+            return e.value
+        if isinstance(e, ast.Name):
+            if e.id in st:
+                return st[e.id]
+            if e.id == charvar:
+                return ch
+            raise _R18Unreadable(e.id)
+        if isinstance(e, ast.UnaryOp) and isinstance(e.op, ast.Not):
+            v = ev(e.operand)
+            if not isinstance(v, bool):
+                raise _R18Unreadable(short(e, 60))
+            return not v
+        if isinstance(e, ast.BoolOp):
+            v = None
+            for x in e.values:
+                v = ev(x)
+                if not isinstance(v, bool):
+                    raise _R18Unreadable(short(e, 60))
+                if isinstance(e.op, ast.And) and not v:
+                    return False
+                if isinstance(e.op, ast.Or) and v:
+                    return True
+            return v
+        if isinstance(e, ast.Compare) and len(e.ops) == 1:
+            l, r = e.left, e.comparators[0]
+            op = e.ops[0]
+            if isinstance(op, (ast.Eq, ast.NotEq)):
+                a, b = ev(l), ev(r)
+                if isinstance(a, bool) != isinstance(b, bool):
+                    raise _R18Unreadable(short(e, 60))
+                return (a == b) if isinstance(op, ast.Eq) else (a != b)
+            if isinstance(op, (ast.In, ast.NotIn)):
+                a = ev(l)
+                if isinstance(r, ast.Constant) and isinstance(r.value, str):
+                    members = list(r.value)
+                elif isinstance(r, (ast.Tuple, ast.List, ast.Set)) and all(isinstance(x, ast.Constant) and isinstance(x.value, str) for x in r.elts):
+                    members = [x.value for x in r.elts]
+                else:
+                    raise _R18Unreadable(short(e, 60))
+                if not isinstance(a, str):
+                    raise _R18Unreadable(short(e, 60))
+                return (a in members) if isinstance(op, ast.In) else (a not in members)
+            if isinstance(op, (ast.Is, ast.IsNot)) and isinstance(r, ast.Constant) and isinstance(r.value, bool):
+                a = ev(l)
+                return (a is r.value) if isinstance(op, ast.Is) else (a is not r.value)
+        if isinstance(e, ast.IfExp):
+            t = ev(e.test)
+            if not isinstance(t, bool):
+                raise _R18Unreadable(short(e, 60))
+            return ev(e.body if t else e.orelse)
+        raise _R18Unreadable(short(e, 60))
+
+    def block(stmts):
+        for s in stmts:
+            if isinstance(s, ast.If):
+                t = ev(s.test)
+                if not isinstance(t, bool):
+                    raise _R18Unreadable(short(s.test, 60))
+                if t:
+                    out['arms'].append(s.test)
+                    block(s.body)
+                else:
+                    block(s.orelse)
+            elif isinstance(s, (ast.Assign, ast.AnnAssign)) and getattr(s, 'value', None) is not None:
+                tgs = s.targets if isinstance(s, ast.Assign) else [s.target]
+                if all(isinstance(t, ast.Name) and t.id in st for t in tgs):
+                    v = ev(s.value)
+                    if not isinstance(v, bool):
+                        raise _R18Unreadable(short(s, 60))
+                    for t in tgs:
+                        st[t.id] = v
+                elif any(isinstance(x, ast.Name) and x.id in st and isinstance(x.ctx, ast.Store) for t in tgs for x in ast.walk(t)):
+                    raise _R18Unreadable(short(s, 60))
+                # other locals (start = pos + 1, piece = header[start:pos]): slice arithmetic, not decided
+            elif isinstance(s, ast.AugAssign):
+                if isinstance(s.target, ast.Name) and s.target.id in st:
+                    raise _R18Unreadable(short(s, 60))
+            elif isinstance(s, ast.Expr) and isinstance(s.value, ast.Call) and isinstance(s.value.func, ast.Attribute) and s.value.func.attr == 'append':
+                out['cut'] = True
+            elif isinstance(s, ast.Expr) and isinstance(s.value, ast.Yield):
+                out['cut'] = True
+            elif isinstance(s, ast.Expr) and isinstance(s.value, ast.Constant):
+                pass
+            elif isinstance(s, ast.Pass):
+                pass
+            elif isinstance(s, ast.Continue):
+                raise _R18Stop()
+            else:
+                raise _R18Unreadable(short(s, 60))
+
+    try:
+        block(body)
+    except _R18Stop:
+        pass
+    return st, out['cut'], out['arms']
+
+
+def r18_cut_outside_quotes(run):
+    """(a) no plain split/partition of header text at `,` / `;` unless a dominating test shows the text has no DQUOTE;
+    (b) the splitter's character loop cuts exactly where the RFC 9110 quoted-string reader says a comma is outside quotes.
+    W: 'text/plain; format="a,b"' is cut into 'text/plain; format="a' and 'b"'."""
+    from .c09_helpers import rebound_between
+    p = run.project
+    funcs, callee = _mt_functions(p)
+    by_qual = {f.qual: f for f in funcs}
+    n_ob = 0
+    # ---- (a)
+    for f in funcs:
+        cuts = []
+        for n in walk_self(f.node):
+            if isinstance(n, ast.Call) and isinstance(n.func, ast.Attribute) and n.func.attr in _R18_CUTS and n.args \
+                    and isinstance(n.args[0], ast.Constant) and n.args[0].value in _R18_SEPARATORS:
+                if n.func.attr == 'partition' and n.args[0].value == ';':
+                    continue       # the FIRST `;` of a member stands in front of every parameter, hence of every quoted string
+                cuts.append((n, n.func.value))
+            elif isinstance(n, ast.Call) and p.resolve_expr(f.module, n.func, f) == 're.split' and len(n.args) >= 2:
+                pat = p.fold(f.module, n.args[0], None, f)
+                if pat is UNKNOWN or not isinstance(pat, str):
+                    raise UnknownIdiom('%s: %s' % (f.qual, short(n, 60)))
+                if any(s in pat for s in _R18_SEPARATORS):
+                    cuts.append((n, n.args[1]))
+        if not cuts:
+            continue
+        cfg = cfg_of(f, p)
+        run.use_cfg(cfg)
+        for call, recv in cuts:
+            nids = [n.id for n in cfg.live_nodes() if not n.copy and any(x is call for x in n.walk())]
+            if not nids:
+                if any(x is call for g in f.nested.values() for x in ast.walk(g.node)):
+                    continue
+                raise UnknownIdiom('%s: no CFG node for %s' % (f.qual, short(call, 60)))
+            nid = nids[0]
+            proved = None
+            for t in cfg.live_nodes():
+                if t.kind != 'test' or proved:
+                    continue
+                for (y, l) in cfg.succ[t.id]:
+                    if l not in ('T', 'F') or not flow.dominated_by_edge(cfg, nid, (t.id, y, l)):
+                        continue
+                    for c in walk_self(t.ast):
+                        if not (isinstance(c, ast.Compare) and len(c.ops) == 1 and isinstance(c.ops[0], (ast.In, ast.NotIn))
+                                and isinstance(c.left, ast.Constant) and c.left.value == '"' and isinstance(c.comparators[0], ast.Name)):
+                            continue
+                        r = implied(t.ast, l == 'T', lambda e, c=c: e is c)
+                        if r is None or r != isinstance(c.ops[0], ast.NotIn):
+                            continue
+                        base = c.comparators[0].id
+                        names = _derived_closure(f.node, base)
+                        if not _text_derived(recv, names):
+                            continue
+                        if rebound_between(cfg, t.id, l, nid, {base}):
+                            continue
+                        proved = t.ast
+            n_ob += 1
+            run.check(proved is not None, "a plain cut of header text at %r only where a dominating test shows the text has no DQUOTE ('\"' not in ...): "
+                      'a separator inside a quoted parameter value is not a separator' % call.args[0].value if isinstance(call.func, ast.Attribute)
+                      else 'a regular-expression cut of header text at a separator only where the text has no DQUOTE', f, call, where=f.loc(call),
+                      runtime_witness=_R18_WITNESS_A)
+    # ---- (b)
+    pr = p.func(MEDIATYPES + '._parse_media_ranges')
+    run.use(pr)
+    hdr = single(_param_names(pr), 'parameter', pr.qual)
+    sources = []
+    for n in ast.walk(pr.node):
+        if isinstance(n, (ast.comprehension, ast.For)):
+            sources.append(n.iter)
+    if len(sources) != 1:
+        raise UnknownIdiom('%s: %d loops over the members' % (pr.qual, len(sources)))
+    src = sources[0]
+    g = callee(pr, src) if isinstance(src, ast.Call) else None
+    if g is None:
+        if isinstance(src, ast.Call) and isinstance(src.func, ast.Attribute) and src.func.attr in _R18_CUTS:
+            return n_ob                          # judged by (a)
+        raise UnknownIdiom('%s: the members come from %s' % (pr.qual, short(src, 60)))
+    if not (len(src.args) == 1 and isinstance(src.args[0], ast.Name) and src.args[0].id == hdr):
+        raise UnknownIdiom('%s: %s is not applied to the header text itself' % (pr.qual, short(src, 60)))
+    run.use(g)
+    gh = single(_param_names(g), 'parameter', g.qual)
+    loops = [n for n in walk_self(g.node) if isinstance(n, (ast.For, ast.While))]
+    if not loops:
+        # no character loop: every return must be a cut judged by (a) (or a regular expression: unknown)
+        for r in _returns(g):
+            if not (isinstance(r.value, ast.Call) and isinstance(r.value.func, ast.Attribute) and r.value.func.attr in _R18_CUTS):
+                raise UnknownIdiom('%s returns %s' % (g.qual, short(r.value, 60)))
+        return n_ob
+    loop = single(loops, 'character loop', g.qual)
+    if not isinstance(loop, ast.For) or loop.orelse:
+        raise UnknownIdiom('%s: %s' % (g.qual, short(loop, 60)))
+    it, tgt = loop.iter, loop.target
+    if isinstance(it, ast.Call) and isinstance(it.func, ast.Name) and it.func.id == 'enumerate' and len(it.args) == 1 \
+            and isinstance(tgt, ast.Tuple) and len(tgt.elts) == 2 and isinstance(tgt.elts[1], ast.Name):
+        it, charvar = it.args[0], tgt.elts[1].id
+    elif isinstance(tgt, ast.Name):
+        charvar = tgt.id
+    else:
+        raise UnknownIdiom('%s: loop target %s' % (g.qual, short(tgt, 40)))
+    if not (isinstance(it, ast.Name) and it.id == gh):
+        raise UnknownIdiom('%s: the loop runs over %s, not over the header text' % (g.qual, short(it, 40)))
+    init: Dict[str, bool] = {}
+    inside = {id(x) for x in ast.walk(loop)}
+    for n in walk_self(g.node):
+        if isinstance(n, (ast.Assign, ast.AnnAssign)) and id(n) not in inside and isinstance(getattr(n, 'value', None), ast.Constant) \
+                and isinstance(n.value.value, bool):
+            for t in (n.targets if isinstance(n, ast.Assign) else [n.target]):
+                if isinstance(t, ast.Name):
+                    if t.id in init:
+                        raise UnknownIdiom('%s: %s initialised twice' % (g.qual, t.id))
+                    init[t.id] = n.value.value
+    if not init:
+        raise UnknownIdiom('%s: no boolean state variable in front of the character loop' % g.qual)
+    other = next(c for c in 'xyzwvu' if not any(isinstance(n, ast.Constant) and isinstance(n.value, str) and c in n.value for n in ast.walk(loop)))
+    chars = [(nm, ch if nm != 'other' else other) for nm, ch in _R18_CHARS]
+    start = (tuple(sorted(init.items())), (False, False))
+    seen = {start: []}
+    queue = [start]
+    mismatch = None
+    n_steps = 0
+    while queue and mismatch is None:
+        cur = queue.pop(0)
+        cst, rst = cur
+        for nm, ch in chars:
+            try:
+                nst, cut, arms = _r18_code_step(loop.body, dict(cst), charvar, ch)
+            except _R18Unreadable as why:
+                raise UnknownIdiom('%s: %s in the character loop' % (g.qual, why))
+            nref, rcut = _r18_ref_step(rst, ch if nm != 'other' else 'x')
+            n_steps += 1
+            word = seen[cur] + [nm]
+            if cut != rcut:
+                mismatch = (word, cut, rcut, arms, cst)
+                break
+            nxt = (tuple(sorted(nst.items())), nref)
+            if nxt not in seen:
+                seen[nxt] = word
+                queue.append(nxt)
+    n_ob += 1
+    what = '%s: the character loop cuts exactly at the commas outside quoted strings (DQUOTE toggles the quote state unless escaped, a backslash ' \
+           'escapes the next character only inside quotes): equivalent to the RFC 9110 5.6.4 reader on all character sequences ' \
+           '(%d product states, %d steps)' % (g.name, len(seen), n_steps)
+    if mismatch is None:
+        run.ok(what, g.loc(loop), 'for %s in %s' % (short(loop.target, 30), short(loop.iter, 40)))
+    else:
+        word, cut, rcut, arms, cst = mismatch
+        cons = arms[-1] if arms else 'for %s in %s' % (short(loop.target, 30), short(loop.iter, 40))
+        run.fail(what, g, cons, where=g.loc(arms[-1]) if arms else g.loc(loop),
+                 witness=['after the characters %s the loop %s, the quoted-string reader %s' % (
+                     ' '.join(word), 'cuts' if cut else 'does not cut', 'cuts' if rcut else 'does not cut'),
+                     'loop state before the last character: %s' % dict(cst)],
+                 runtime_witness=_R18_WITNESS_A + '; or \'a/b;p="x\\\\",y", c/d\' is cut inside the quoted value')
+    run.extra['c11_r18'] = {'splitter': g.qual, 'state_variables': sorted(init), 'product_states': len(seen)}
+    return n_ob
